@@ -23,9 +23,17 @@ Six exhaustively enumerated spaces (nothing is sampled):
      means must not depend on what was loaded before it; (fl) every ordered pair
      of logger sections on one logging tree without a reset in between.
 
+ (g) faults at factory-CALL time: a logger / eventlog section with 1..3 handler
+     sections, each kind x {no fault, directory missing, path is a directory, unknown
+     encoding}; every sequence of {call logger factory, call handler factory j,
+     repair fault j, reopenFiles, closeFiles} with vz.ref.logfaults.FaultModel in
+     lock step: a call that cannot create a handler raises, every later call still
+     ends with exactly one handler per section; one record logged at the end is
+     written once per section.
+
 Oracle: vz.ref.logmodel (level table, decision table, Python's own rendering of
 a format, registry model); for (f) the differential relation "same section =>
-same outcome as in a fresh process".
+same outcome as in a fresh process"; for (g) vz.ref.logfaults.
 """
 import collections
 import gc
@@ -1811,6 +1819,429 @@ def check_fl(p, q, env, acc):
 
 
 # ----------------------------------------------------------------------------
+# (g) faults when a factory is CALLED, and the calls made after them
+#
+# One <logger> / <eventlog> section with 1..3 handler sections.  A handler section
+# ("slot") = kind x fault: kind in {plain, rot, timed} x {eager, delay} or a STDOUT
+# stream handler; fault = what the environment does to the handler's file when the
+# handler is created: none | nodir (the directory of the file does not exist yet:
+# FileNotFoundError, repairable by mkdir) | isdir (the path is a directory:
+# IsADirectoryError, repairable by rmdir) | badenc (unknown encoding: LookupError, not
+# an OSError, permanent).  Faults are attached to the eager file kinds only (a delayed
+# handler does not open its file when it is created).  Operations: L call the logger
+# factory, H_j call the handler factory of section j (logger_factory.handler_factories
+# [j]), X_j repair the fault of section j, R reopenFiles(), C closeFiles().  EVERY
+# operation sequence of the bound length runs on the real component with
+# vz.ref.logfaults.FaultModel in lock step; after every step: which calls raise,
+# the handlers of the logger (once the logger factory has returned: exactly one per
+# section, in order, the product of that section's handler factory; before that: at
+# most one per section, in order, nothing foreign), the registry, liveness and stream
+# of every handler.  At the end of a sequence without C, if the logger factory has
+# returned, ONE record is logged: every file of a section holds exactly one line
+# (STDOUT: one line per STDOUT section).
+
+G_KINDS = KIND_NAMES + ["stdout"]
+G_FAULTS = ("none", "nodir", "isdir", "badenc")
+G_REPAIRABLE = ("nodir", "isdir")
+G_BADENC = "vz-no-such-codec"
+G_RECORD = "vz-g-record"
+G_LOGGER = PREFIX + ".g"
+G_LEVEL0 = 11            # section j has level 11 + j: tells the handlers of the sections apart
+G_LOGGER_KINDS = ("logger", "eventlog")
+
+
+def g_slot_types(which="all"):
+    """The slot alphabet.  'all': every kind x every fault that can show when the
+    handler is created (16); 'plain': the plain file handler x every fault, its delayed
+    form and STDOUT (6); 'core': plain x {none, nodir, badenc} (3); 'pairs': {plain, rot,
+    timed} x {none, nodir, badenc}, plain-delay, STDOUT (11)."""
+    if which == "core":
+        return [["plain", "none"], ["plain", "nodir"], ["plain", "badenc"]]
+    if which == "pairs":
+        return [t for t in g_slot_types("all")
+                if t[1] != "isdir" and t[0] not in ("rot-delay", "timed-delay")]
+    out = []
+    for k in G_KINDS:
+        if which == "plain" and k not in ("plain", "plain-delay", "stdout"):
+            continue
+        for f in G_FAULTS:
+            if f != "none" and (k == "stdout" or k.endswith("-delay")):
+                continue
+            out.append([k, f])
+    return out
+
+
+def g_ops(slots):
+    n = len(slots)
+    return ([["L"]] + [["H", j] for j in range(n)]
+            + [["X", j] for j in range(n) if slots[j][1] in G_REPAIRABLE] + [["R"], ["C"]])
+
+
+def g_describe(h):
+    return describe_handler(h) if isinstance(h, logging.Handler) else repr(h)
+
+
+class GSys:
+    """The implementation side of (g)."""
+
+    def __init__(self, env, lkind, slots):
+        from vz.ref import logfaults
+        self.env = env
+        self.lkind = lkind
+        self.slots = slots
+        self.n = len(slots)
+        self.base = os.path.join(env.dir, "g")
+        os.mkdir(self.base)
+        self.paths = []
+        secs = []
+        mslots = []
+        for j, (kind, fault) in enumerate(slots):
+            if kind == "stdout":
+                opts = {"path": "STDOUT"}
+                path = None
+            else:
+                if fault == "nodir":
+                    path = os.path.join(self.base, "d%d" % j, "s.log")
+                else:
+                    path = os.path.join(self.base, "s%d.log" % j)
+                if fault == "isdir":
+                    os.mkdir(path)
+                opts = dict(SLOT_KINDS[kind], path=path)
+                if fault == "badenc":
+                    opts["encoding"] = G_BADENC
+            self.paths.append(path)
+            secs.append(logfile_text(env, opts, level=str(G_LEVEL0 + j), fmt="%(message)s"))
+            mslots.append({"file": kind != "stdout", "delay": kind.endswith("-delay"),
+                           "fault": None if fault == "none" else
+                           (logfaults.REPAIRABLE if fault in G_REPAIRABLE else logfaults.PERMANENT)})
+        head = ["<logger>", "  name " + G_LOGGER] if lkind == "logger" else ["<eventlog>"]
+        self.text = "\n".join(head + secs + ["</%s>" % lkind])
+        st, cfg = load(self.text)
+        if st != "ok":
+            raise SlotRefused(cfg)
+        self.lf = cfg.loggers[0]
+        self.hf = list(self.lf.handler_factories)
+        if len(self.hf) != self.n:
+            raise SlotRefused({"class": "handler_factories", "msg": "%d factories for %d sections"
+                               % (len(self.hf), self.n), "family": False})
+        self.target = logging.getLogger(G_LOGGER) if lkind == "logger" else logging.getLogger()
+        self.wr = [None] * self.n
+        self.model = logfaults.FaultModel(mslots)
+        self.after_failure = False       # a factory call has failed because of a fault
+        self.raised = collections.Counter()   # (operation, fault kind) of the calls that raised
+
+    def handler(self, j):
+        w = self.wr[j]
+        return w() if w is not None else None
+
+    def _adopt(self, j, h):
+        self.wr[j] = weakref.ref(h)
+        self.env.track(h)
+
+    def _find(self, j):
+        """Live handlers that belong to section j (by the section's level): attached to
+        the logger or in the registry."""
+        out = []
+        for h in list(self.target.handlers) + [w() for w in self.env.lh._reopenable_handlers]:
+            if h is not None and getattr(h, "level", None) == G_LEVEL0 + j and not any(h is o for o in out):
+                out.append(h)
+        return out
+
+    def _repair(self, j):
+        fault = self.slots[j][1]
+        if fault == "nodir":
+            os.makedirs(os.path.dirname(self.paths[j]), exist_ok=True)
+        elif fault == "isdir" and os.path.isdir(self.paths[j]):
+            os.rmdir(self.paths[j])
+
+    def step(self, op):
+        """Apply op to implementation and model; -> list of (what, observed, expected)."""
+        lh = self.env.lh
+        m = self.model
+        bad = []
+        before = {}
+        for j in range(self.n):
+            h = self.handler(j)
+            if h is not None and m.file[j]:
+                before[j] = h.stream
+            del h
+        acted = None
+        if op[0] == "H":
+            j = op[1]
+            exp = m.handler_call(j)
+            try:
+                h = self.hf[j]()
+            except Exception as e:
+                if exp != "raise":
+                    return [("handler-factory-raises", core.exc_desc(e), exp)]
+                self.after_failure = True
+                self.raised["H:%s:%s" % (self.slots[j][1], type(e).__name__)] += 1
+            else:
+                if exp == "raise":
+                    if isinstance(h, logging.Handler):
+                        self.env.track(h)
+                    return [("handler-factory-returns-though-the-handler-cannot-be-created",
+                             repr(h), "an exception")]
+                if not isinstance(h, logging.Handler):
+                    return [("handler-factory-returns-no-handler", repr(h), "a handler")]
+                if exp == "create":
+                    self._adopt(j, h)
+                    if h.level != G_LEVEL0 + j:
+                        bad.append(("handler-level", h.level, G_LEVEL0 + j))
+                elif self.handler(j) is not h:
+                    self.env.track(h)
+                    bad.append(("handler-factory-returned-another-handler", repr(h),
+                                "the handler of this section: " + repr(self.handler(j))))
+                del h
+        elif op[0] == "L":
+            exp, created, at = m.logger_call()
+            try:
+                lg = self.lf()
+            except Exception as e:
+                if exp != "raise":
+                    return [("logger-factory-raises", core.exc_desc(e), exp)]
+                self.after_failure = True
+                self.raised["L:%s:%s" % (self.slots[at][1], type(e).__name__)] += 1
+            else:
+                if exp == "raise":
+                    return [("logger-factory-returns-though-a-handler-cannot-be-created",
+                             [type(h).__name__ for h in getattr(lg, "handlers", ())],
+                             "an exception (section %d)" % at)]
+                if lg is not self.target:
+                    return [("wrong-logger", repr(lg), repr(self.target))]
+                if lg.level != R.DEFAULT_LOGGER_LEVEL:
+                    bad.append(("logger-level", lg.level, R.DEFAULT_LOGGER_LEVEL))
+                if self.lkind == "logger" and lg.propagate is not True:
+                    bad.append(("propagate", lg.propagate, True))
+                del lg
+            for j in created:
+                cands = self._find(j)
+                if len(cands) != 1:
+                    return [("handlers-of-a-section-created-by-the-logger-factory",
+                             [g_describe(h) for h in cands], "exactly one (section %d)" % j)]
+                self._adopt(j, cands[0])
+                del cands
+        elif op[0] == "X":
+            self._repair(op[1])
+            m.repair(op[1])
+        elif op[0] == "R":
+            try:
+                lh.reopenFiles()
+            except Exception as e:
+                return [("reopenFiles-raises", core.exc_desc(e), "no exception")]
+            acted = m.reopen()
+        elif op[0] == "C":
+            try:
+                lh.closeFiles()
+            except Exception as e:
+                return [("closeFiles-raises", core.exc_desc(e), "no exception")]
+            acted = m.close_all()
+        else:
+            raise core.HarnessError("unknown (g) operation %r" % (op,))
+        mine = {}
+        for j in range(self.n):
+            h = self.handler(j)
+            if h is not None:
+                mine[id(h)] = j
+            del h
+        # the handlers of the logger
+        hs = list(self.target.handlers)
+        seq = [mine.get(id(h), -1) for h in hs]
+        if m.configured:
+            if seq != list(range(self.n)):
+                bad.append(("logger-handlers", [seq, [g_describe(h) for h in hs]],
+                            "exactly one handler per section, in order: %r" % list(range(self.n))))
+        elif -1 in seq or any(a >= b for a, b in zip(seq, seq[1:])):
+            bad.append(("logger-handlers-before-the-factory-returned",
+                        [seq, [g_describe(h) for h in hs]],
+                        "at most one handler per section, in order, nothing else"))
+        del hs
+        # registry == created, unclosed file handlers
+        reg = [w() for w in lh._reopenable_handlers]
+        reg_slots = sorted(mine.get(id(h), -1) for h in reg if h is not None)
+        del reg
+        if reg_slots != m.registered():
+            bad.append(("registry", reg_slots, m.registered()))
+        for j in range(self.n):
+            h = self.handler(j)
+            ms = m.slots[j]
+            if ms is None:
+                if h is not None:
+                    bad.append(("section-has-a-handler", j, "none"))
+                continue
+            if h is None:
+                bad.append(("handler-of-section-gone", j, "alive"))
+                continue
+            if m.file[j]:
+                is_open = h.stream is not None and not h.stream.closed
+                if is_open != ms["open"]:
+                    bad.append(("stream-open-after-" + op[0], [j, is_open], [j, ms["open"]]))
+                if acted is not None:
+                    old = before.get(j)
+                    if j in acted:
+                        if old is not None and not old.closed:
+                            bad.append(("old-stream-left-open-by-" + op[0], "open", "closed"))
+                        if op[0] == "R" and old is not None and h.stream is old:
+                            bad.append(("not-reopened", "same stream", "new stream"))
+                    elif h.stream is not old:
+                        bad.append(("touched-unregistered-handler-" + op[0], repr(h.stream), repr(old)))
+            del h
+        return bad
+
+    def emit_one(self, captured):
+        """One record through the configured logger: one line per section."""
+        bad = []
+        old = logging.raiseExceptions
+        logging.raiseExceptions = False
+        try:
+            self.target.critical(G_RECORD)
+            for h in list(self.target.handlers):
+                try:
+                    h.flush()
+                except Exception:
+                    pass
+        finally:
+            logging.raiseExceptions = old
+        for j in range(self.n):
+            if self.paths[j] is None:
+                continue
+            try:
+                with open(self.paths[j], "rb") as f:
+                    lines = f.read().decode("latin-1").splitlines()
+            except OSError as e:
+                lines = type(e).__name__
+            if lines != [G_RECORD]:
+                bad.append(("lines-in-the-file-of-a-section-after-one-record", [j, lines], [j, [G_RECORD]]))
+        nstd = sum(1 for p in self.paths if p is None)
+        lines = captured.getvalue().splitlines()
+        if lines != [G_RECORD] * nstd:
+            bad.append(("lines-on-STDOUT-after-one-record", lines, [G_RECORD] * nstd))
+        return bad
+
+
+def run_g_sequence(env, lkind, slots, ops, acc, stats=None):
+    """-> (problems of the first failing step, its index) or (None, None); index len(ops)
+    = the record logged at the end."""
+    env.begin()
+    captured = io.StringIO()
+    real_stdout = sys.stdout
+    sys.stdout = captured
+    base = os.path.join(env.dir, "g")
+    s = None
+    try:
+        try:
+            s = GSys(env, lkind, slots)
+        except SlotRefused as e:
+            return [("section-configuration-refused", e.args[0], "accepted")], -1
+        for i, op in enumerate(ops):
+            bad = s.step(op)
+            acc.traces += 1
+            if bad:
+                return bad, i
+        m = s.model
+        if stats is not None:
+            stats["failed"] = m.failed_calls
+            stats["retries"] = m.retries_after_failure
+            stats["completed_after_failure"] = m.completed_after_failure
+            stats["after_failure"] = s.after_failure
+            stats["configured"] = m.configured
+            stats["raised"] = s.raised
+        if m.configured and not any(op[0] == "C" for op in ops):
+            if stats is not None:
+                stats["emitted"] = True
+            bad = s.emit_one(captured)
+            if bad:
+                return bad, len(ops)
+        return None, None
+    finally:
+        sys.stdout = real_stdout
+        del s
+        env.end()
+        shutil.rmtree(base, ignore_errors=True)
+
+
+def report_g(acc, lkind, slots, ops, i, bad):
+    what = bad[0][0]
+    op = "load" if i < 0 else ("emit" if i >= len(ops) else ops[i][0])
+    acc.violation("faulted-factory-" + what,
+                  {"part": "g", "logger": lkind, "slots": slots, "ops": ops[:i + 1]},
+                  [list(b[:2]) for b in bad], [[b[0], b[2]] for b in bad],
+                  tags={"kind": "faulted-factory", "what": what.split("-after-")[0], "op": op,
+                        "part": "g", "faults": "+".join(sorted(set(f for _, f in slots)))},
+                  size=len(ops[:i + 1]) * 100 + 10 * len(slots)
+                  + sum(1 for k, f in slots if k != "plain" or f != "none") + (lkind != "logger"))
+
+
+def shard_g(lkind, slots, prefix, depth, env, acc):
+    ops = g_ops(slots)
+    for tail in itertools.product(ops, repeat=depth - len(prefix)):
+        seq = list(prefix) + list(tail)
+        acc.current = {"part": "g", "logger": lkind, "slots": slots, "ops": seq}
+        stats = {}
+        bad, i = run_g_sequence(env, lkind, slots, seq, acc, stats)
+        acc.ev()
+        acc.extra["g:sequences"] += 1
+        if bad:
+            acc.cls("g:seq-violation")
+            report_g(acc, lkind, slots, seq, i, bad)
+            continue
+        acc.cls("g:seq-ok")
+        for k, v in stats.get("raised", {}).items():
+            acc.extra["g:call-raised:" + k] += v
+        if stats.get("failed"):
+            acc.cls("g:logger-factory-call-failed-part-way-or-at-once")
+        if stats.get("retries"):
+            # non-trivial: the logger factory is called again after a call that a fault made fail
+            acc.nt()
+            acc.cls("g:logger-factory-called-again-after-a-failed-call")
+        if stats.get("completed_after_failure"):
+            acc.cls("g:logger-factory-completed-after-a-failed-call")
+        if stats.get("after_failure") and not stats.get("failed"):
+            acc.cls("g:only-handler-factory-calls-failed")
+        if stats.get("emitted"):
+            acc.cls("g:record-logged-at-the-end")
+            if stats.get("completed_after_failure"):
+                acc.cls("g:record-logged-after-a-completed-retry")
+    acc.sample(lambda: {"part": "g", "logger": lkind, "slots": slots, "prefix": prefix, "depth": depth,
+                        "operations": ops})
+
+
+def g_configs(tier):
+    """-> list of (logger kind, slots, depth)"""
+    full = g_slot_types("all")
+    plain = g_slot_types("plain")
+    core_ = g_slot_types("core")
+    out = []
+    if tier == "quick":
+        for lk in G_LOGGER_KINDS:
+            out += [(lk, [a], 4) for a in full]
+        pairs = g_slot_types("pairs")
+        out += [("logger", [a, b], 3) for a in pairs for b in pairs]
+        out += [("eventlog", [a, b], 3) for a in plain for b in plain]
+        out += [("logger", [a, b, c], 3) for a in core_ for b in core_ for c in core_]
+        return out
+    for lk in G_LOGGER_KINDS:
+        out += [(lk, [a], 5) for a in full]
+    out += [("logger", [a, b], 4) for a in full for b in full]
+    out += [("eventlog", [a, b], 4) for a in plain for b in plain]
+    out += [("logger", [a, b], 5) for a in plain for b in plain]
+    out += [("logger", [a, b, c], 3) for a in plain for b in plain for c in plain]
+    for lk in G_LOGGER_KINDS:
+        out += [(lk, [a, b, c], 4) for a in core_ for b in core_ for c in core_]
+    return out
+
+
+def g_shards(tier):
+    out = []
+    for lk, slots, depth in g_configs(tier):
+        ops = g_ops(slots)
+        plen = 0 if len(ops) ** depth < 3000 else (1 if len(ops) ** depth < 30000 else 2)
+        for prefix in itertools.product(ops, repeat=plen):
+            out.append(("g", lk, slots, list(prefix), depth))
+    return out
+
+
+# ----------------------------------------------------------------------------
 # shards, run, replay
 
 def shard_func(shard, acc):
@@ -1845,6 +2276,8 @@ def shard_func(shard, acc):
             shard_e_bfs(shard[1], shard[2], env, acc)
         elif what == "e-seq":
             shard_e_seq(shard[1], shard[2], shard[3], env, acc)
+        elif what == "g":
+            shard_g(shard[1], shard[2], shard[3], shard[4], env, acc)
         else:
             raise core.HarnessError("unknown shard %r" % (shard,))
     return acc
@@ -1864,6 +2297,7 @@ def all_shards(tier):
         plen = 1 if len(ops) ** depth < 20000 else (2 if len(ops) ** depth < 200000 else 3)
         for prefix in itertools.product(ops, repeat=plen):
             shards.append(("e-seq", kinds, list(prefix), depth))
+    shards += g_shards(tier)
     return shards
 
 
@@ -1893,14 +2327,38 @@ def run(tier):
              "(fl) every ordered pair of %d logger sections (2 names parent/child + eventlog x level x "
              "propagate x handlers): q's factory called on the logging tree p's factory has just "
              "configured, no reset in between: level, propagate, exactly q's handlers added, other logger "
-             "untouched.  Non-trivial = (b)/(c) accepted configuration with >= 1 handler, (d) format "
+             "untouched; "
+             "(g) FAULTS AT FACTORY-CALL TIME and the calls after them: one <logger>/<eventlog> section "
+             "with 1..3 handler sections, each = kind {plain, rot, timed} x {eager, delay} or STDOUT x fault "
+             "{none, nodir: directory of the file missing (FileNotFoundError, repairable), isdir: path is a "
+             "directory (IsADirectoryError, repairable), badenc: unknown encoding (LookupError, permanent)} "
+             "(faults on the eager file kinds: %d slot types); EVERY sequence of the bound length over {L call "
+             "the logger factory, H_j call handler factory j, X_j repair fault j, R reopenFiles, C closeFiles} "
+             "with the fault model in lock step: a call that reaches an uncreatable handler raises, a handler "
+             "factory holds one handler, after every step the logger carries at most one handler per section "
+             "in order (exactly one each, the products of the sections' handler factories, once the logger "
+             "factory has returned - also when earlier calls failed part-way), registry / liveness / streams "
+             "as in (e); at the end of a sequence without C one record is logged through the configured "
+             "logger: exactly one line per section's file / STDOUT section (%s).  "
+             "Non-trivial = (b)/(c) accepted configuration with >= 1 handler, (d) format "
              "with >= 1 field reference in its style, (e) sequence with a factory call followed by a "
-             "registry operation, (f) history in which a section is accepted, (fl) both sections accepted "
+             "registry operation, (f) history in which a section is accepted, (fl) both sections accepted, "
+             "(g) sequence in which the logger factory is called again after a call that a fault made fail "
              "(distinct cases; shards partition each space)."
              % (len(R.FIELDS), 3, "4" if quick else "6 (5 on two of the four 3-handler configurations)",
                 "(p)" if quick else "(p), and (p1, p2) over the %d-section sub-alphabet" % len(h_atoms("small")),
                 "inside one <logger>" if quick else "inside one <logger>, and as top-level sections",
-                len(fl_atoms())),
+                len(fl_atoms()), len(g_slot_types("all")),
+                "quick: 1 section x 16 types x both logger kinds length 4; 2 sections: the 121 pairs of {plain, rot, "
+                "timed} x {none, nodir, badenc} + plain-delay + STDOUT under <logger> and the 36 pairs of the "
+                "plain sub-alphabet (plain x 4 faults, plain-delay, STDOUT) under <eventlog>, length 3; 3 sections: "
+                "27 triples of {plain, plain+nodir, plain+badenc}, length 3" if quick else
+                "thorough: 1 section x 16 types x both logger kinds length 5; 2 sections: all 256 pairs under "
+                "<logger> length 4, the 36 pairs of the plain sub-alphabet (plain x 4 faults, plain-delay, "
+                "STDOUT) under <eventlog> length 4 and under <logger> length 5; 3 sections: 216 triples of the "
+                "plain sub-alphabet length 3, 27 triples of {plain, plain+nodir, plain+badenc} under both "
+                "logger kinds length 4 (cut to keep the tier under ~8 000 CPU-s: no length 6, no full "
+                "alphabet on 3 sections)"),
         bounds={"levels": {"names": [n for n, _ in R.LEVEL_TABLE], "integers": [-2, 52]},
                 "logfile_product": {"path": B_PATHS, "max-size": B_MAX, "old-files": B_OLD, "when": B_WHEN,
                                     "interval": B_INT, "delay": B_DELAY, "encoding": B_ENC, "level": B_LEVEL},
@@ -1921,7 +2379,13 @@ def run(tier):
                 "f_sections_for_prefix_length_2": 0 if quick else len(h_atoms("small")),
                 "f_placements": list(H_PLACEMENTS_QUICK if quick else H_PLACEMENTS),
                 "fl_sections": len(fl_atoms()), "fl_names": list(FL_NAMES) + ["<eventlog>"],
-                "fl_levels": list(FL_LEVELS), "fl_handlers": [list(h) for h in FL_HANDLERS]},
+                "fl_levels": list(FL_LEVELS), "fl_handlers": [list(h) for h in FL_HANDLERS],
+                "g_slot_types": g_slot_types("all"), "g_plain_sub_alphabet": g_slot_types("plain"),
+                "g_core_sub_alphabet": g_slot_types("core"), "g_pairs_sub_alphabet_quick": g_slot_types("pairs"),
+                "g_logger_kinds": list(G_LOGGER_KINDS),
+                "g_operations": ["L", "H_j", "X_j (repairable faults)", "R", "C"],
+                "g_configurations": collections.Counter(
+                    "%s/%d sections/length %d" % (lk, len(sl), d) for lk, sl, d in g_configs(tier))},
         assumptions=[
             "reference model vz/ref/logmodel.py (level table, <logfile> decision table, registry model) "
             "is the documented behaviour; 'rendering in the configured format and style' = what "
@@ -1942,6 +2406,13 @@ def run(tier):
             "history (counted, not claimed)",
             "(fl): handlers already on a logger before a factory call may stay (the component adds, it does "
             "not replace); only what the call adds is compared with the section",
+            "(g): reference vz/ref/logfaults.py; a factory call that cannot create a handler has to raise (any "
+            "exception class); what a FAILED logger-factory call leaves on the logger is only bounded (at most "
+            "one handler per section, in order, nothing foreign), but a handler factory that has returned a "
+            "handler keeps it (documented Factory contract), so the handlers created before the failure are "
+            "the ones the retry attaches; handler factories are reached as logger_factory.handler_factories[j]; "
+            "faults are environment states of /dev/shm (missing directory, directory in place of the file) or "
+            "an unknown codec name; delayed handlers and STDOUT carry no fault (nothing is opened at creation)",
         ])
     # (f)/(fl) first and in a pool of their own: these workers never load a
     # configuration themselves (every history runs in a forked child of theirs),
@@ -1987,6 +2458,19 @@ def run(tier):
         run.require(x.get(c, 0) >= least, "(f) history class %s: %d < %d" % (c, x.get(c, 0), least))
     if not quick:
         run.require(x.get("f:prefix-length-2-shards", 0) > 0, "(f) no prefixes of length 2")
+    ng = sum(len(g_ops(sl)) ** d for _, sl, d in g_configs(tier))
+    run.require(x.get("g:sequences", 0) == ng, "(g) %d sequences executed, %d enumerated" % (x.get("g:sequences", 0), ng))
+    for c, least in (("g:seq-ok", 10000), ("g:logger-factory-call-failed-part-way-or-at-once", 5000),
+                     ("g:logger-factory-called-again-after-a-failed-call", 2000),
+                     ("g:logger-factory-completed-after-a-failed-call", 200),
+                     ("g:only-handler-factory-calls-failed", 2000),
+                     ("g:record-logged-at-the-end", 2000),
+                     ("g:record-logged-after-a-completed-retry", 150)):
+        run.require(k.get(c, 0) >= least, "(g) class %s: %d < %d" % (c, k.get(c, 0), least))
+    for op_ in "LH":
+        for f_ in G_FAULTS[1:]:
+            run.require(any(c.startswith("g:call-raised:%s:%s:" % (op_, f_)) and v > 0 for c, v in x.items()),
+                        "(g) fault %s never made a %s call raise" % (f_, op_))
     for c in ("fl:same-logger", "fl:other-logger", "fl:same-logger-level-changes",
               "fl:same-logger-level-back-to-notset", "fl:same-logger-propagate-changes"):
         run.require(k.get(c, 0) >= 10, "(fl) history class %s rarely seen" % c)
@@ -2030,6 +2514,13 @@ def replay(body):
                 bad, i, _ = run_sequence(env, kinds, ops, acc)
                 if bad:
                     report_e(acc, kinds, ops, i, bad)
+            elif part == "g":
+                slots = [list(x) for x in case["slots"]]
+                ops = [list(o) for o in case["ops"]]
+                bad, i = run_g_sequence(env, case["logger"], slots, ops, acc)
+                acc.sample({"part": "g", "case": case, "problems": bad})
+                if bad:
+                    report_g(acc, case["logger"], slots, ops, i, bad)
             else:
                 print("REPLAY: unknown case", case)
                 return 3
